@@ -39,7 +39,7 @@ def exc_class(e):
             return "ValidationErr"
     except ImportError:
         pass
-    return "Other_" + type(e).__name__
+    return "OtherErr"
 
 
 def run(coro):
